@@ -2,6 +2,7 @@
 //! executed, and what makes a run non-trivial for the evidence.
 
 use crate::monitors::access::AccessMonitor;
+use crate::monitors::dp::{dp_apps, BringupMonitor, CycleMonitor, FcbMonitor, ImageMonitor, LivenessMonitor};
 use crate::monitors::ring::RingMonitor;
 use crate::rng::Fnv;
 use crate::scenario::*;
@@ -9,7 +10,7 @@ use crate::world::{Monitor, Stats, Violation, World};
 use serde::{Deserialize, Serialize};
 use std::collections::BTreeMap;
 
-pub const CLAIMED: [&str; 2] = ["C01", "C02"];
+pub const CLAIMED: [&str; 7] = ["C01", "C02", "C03", "C04", "C07", "C08", "C14"];
 
 #[derive(Serialize, Deserialize, Clone, Debug, Default)]
 pub struct RunResult {
@@ -53,6 +54,31 @@ pub fn build_monitors(sc: &Scenario, w: &World) -> Vec<Box<dyn Monitor>> {
         "C02" => {
             m.push(Box::new(RingMonitor::new("C02", w, o.quiet_from_us, o.bound_us, o.stable_us, false)));
         }
+        "C03" => {
+            for d in dp_apps(w) {
+                m.push(Box::new(BringupMonitor::new("C03", w, d)));
+            }
+        }
+        "C04" => {
+            for d in dp_apps(w) {
+                m.push(Box::new(ImageMonitor::new("C04", w, d)));
+            }
+        }
+        "C07" => {
+            for d in dp_apps(w) {
+                m.push(Box::new(LivenessMonitor::new("C07", w, d, o.quiet_from_us, o.bound_us, o.bound_cycles)));
+            }
+        }
+        "C08" => {
+            for d in dp_apps(w) {
+                m.push(Box::new(FcbMonitor::new("C08", w, d)));
+            }
+        }
+        "C14" => {
+            for d in dp_apps(w) {
+                m.push(Box::new(CycleMonitor::new("C14", w, d)));
+            }
+        }
         other => panic!("harness: no monitors for check {other}"),
     }
     m
@@ -62,8 +88,17 @@ pub fn nontrivial(check: &str, s: &Stats) -> bool {
     match check {
         "C01" => s.get("access.tokens") >= 20 && s.get("access.distinct_token_senders") >= 2,
         "C02" => s.get("ring.converged") >= 1 && s.get("ring.tokens_in_stable") >= 10,
+        "C03" => s.get("dp.bringups_completed") >= 1 && s.get("dp.requests.data_exchange") >= 5 && faults_fired(s) >= 1,
+        "C04" => s.get("image.input_updates") >= 5 && s.get("image.dx_requests_checked") >= 5,
+        "C07" => s.get("liveness.verdicts") >= 1 && faults_fired(s) >= 1,
+        "C08" => s.get("fcb.toggles_checked") >= 10 && (s.get("fcb.retransmissions") >= 1 || faults_fired(s) >= 1),
+        "C14" => s.get("cycle.cycles_completed") >= 5,
         _ => true,
     }
+}
+
+pub fn faults_fired(s: &Stats) -> u64 {
+    s.c.iter().filter(|(k, _)| k.starts_with("fault.")).map(|(_, v)| *v).sum()
 }
 
 pub fn run_scenario(sc: &Scenario, verbose: bool) -> RunResult {
@@ -152,6 +187,8 @@ pub fn default_runs(check: &str, tier: Tier) -> u64 {
     let (q, t) = match check {
         "C01" => (1500, 40_000),
         "C02" => (1200, 20_000),
+        "C03" | "C04" | "C08" | "C14" => (3000, 150_000),
+        "C07" => (2500, 80_000),
         _ => (1000, 20_000),
     };
     match tier {
@@ -167,6 +204,10 @@ pub fn hang_is_violation(check: &str) -> bool {
 pub fn probe_names(check: &str) -> Vec<&'static str> {
     match check {
         "C01" | "C02" => vec!["probe.more_than_one_telegram_in_buffer", "probe.self_offline_address_collision"],
+        "C03" => vec!["probe.set_prm_after_validation_started", "probe.more_than_one_telegram_in_buffer"],
+        "C04" => vec!["probe.sc_for_inputless_peripheral", "probe.more_than_one_telegram_in_buffer"],
+        "C08" => vec!["probe.retry_limit_reached_without_any_reply"],
+        "C14" => vec!["probe.global_control_in_the_middle_of_a_cycle"],
         _ => vec![],
     }
 }
@@ -176,13 +217,23 @@ pub fn rule_of(check: &str) -> String {
     let nt = match check {
         "C01" => "Non-trivial = at least 20 token telegrams were sent by at least 2 different real stations (a ring existed and circulated).",
         "C02" => "Non-trivial = agreement was reached and at least 10 token passes were checked for order during the stability window.",
+        "C03" => "Non-trivial = at least one bring-up reached the ready state, at least 5 Data_Exchange requests were judged and at least one injected fault fired.",
+        "C04" => "Non-trivial = at least 5 Data_Exchange requests were compared with the shadow output image and at least 5 input-image updates were checked.",
+        "C07" => "Non-trivial = at least one injected fault fired and the liveness verdict was reached (all healthy peripherals judged at or before the deadline).",
+        "C08" => "Non-trivial = at least 10 frame-count-bit toggles were checked and a retransmission or an injected fault occurred.",
+        "C14" => "Non-trivial = at least 5 DP cycles were completed under observation.",
         _ => "Non-trivial = the run was not aborted.",
     };
     format!("{common}{nt}")
 }
 
 pub fn components(check: &str) -> serde_json::Value {
-    let _ = check;
+    if matches!(check, "C03" | "C04" | "C07" | "C08" | "C14") {
+        return serde_json::json!({
+            "real_code": ["profirust::dp::DpMaster, Peripheral, PeripheralSet, ExtendedDiagnostics", "profirust::fdl::FdlActiveStation (token handling, reply admission, slot supervision)", "profirust::fdl telegram encode/decode", "provided methods of profirust::phy::ProfibusPhy", "profirust::fdl::ParametersBuilder (watchdog factors)", "LiveList / DpScanner when attached as second application"],
+            "stubs": ["bus (exact-time, byte-accurate)", "harness PHY back end", "reference DP-V0 slaves R5 (Wait_Prm/Wait_Cfg/Data_Exch, diagnostics, FCB retry detection, watchdog)", "user process (pi_q writes, request_diagnostics, reset_address, take_last_events after every poll)", "fault injector", "clocks / poll scheduler"]
+        });
+    }
     serde_json::json!({
         "real_code": ["profirust::fdl::FdlActiveStation (incl. TokenRing, GAP logic)", "profirust::fdl telegram encode/decode (through every transmit and receive)", "provided methods of profirust::phy::ProfibusPhy (transmit_telegram, receive_telegram, receive_all_telegrams, poll_pending_received_bytes)", "profirust::fdl::live_list::LiveList (when attached)", "profirust::fdl::ParametersBuilder"],
         "stubs": ["bus (exact-time, byte-accurate)", "harness PHY back end implementing ProfibusPhy (serial/linux/rp2040 PHYs are not run)", "scripted traffic applications", "passive FDL responders", "clocks / poll scheduler"]
@@ -198,6 +249,13 @@ pub fn assumptions(check: &str) -> Vec<String> {
     match check {
         "C01" => v.push("Cold start together = first polls within one poll period; the unsynchronised claim race and stale PHY buffers are excluded (DESIGN 5.2, 5.3). Joining stations start listening at a telegram boundary.".to_string()),
         "C02" => v.push("Convergence bound B_conv and stability window of DESIGN 5.4.".to_string()),
+        "C03" | "C04" | "C07" | "C08" | "C14" => {
+            v.push("Reference slaves answer within max_tsdr <= Tslot - 15 bit - 2 us (what build_verified demands minus the stack's clock resolution).".to_string());
+            v.push("Option lengths stay within what DP allows (user parameters <= 237, configuration and images <= 244 bytes); set_passive/enter_stop/enter_clear (todo!()) are not generated; reset_address only when nothing is outstanding for that peripheral (DESIGN 5.7, F12).".to_string());
+            if check == "C07" {
+                v.push("Healthy peripheral = reference slave R5 powered, ident/config/lengths matching, watchdog satisfiable by the bus cycle (DESIGN 5.8).".to_string());
+            }
+        }
         _ => {}
     }
     v
